@@ -60,22 +60,28 @@ where
         }
         if self.q_vals.len() >= self.window_len {
             let old_val = self.q_vals.pop_front().unwrap();
-            // update high and low values if needed
-            if old_val >= self.high {
-                // re-compute high
-                self.high = *self
-                    .q_vals
-                    .iter()
-                    .max_by(|x, y| x.partial_cmp(y).unwrap_or(Ordering::Equal))
-                    .unwrap();
-            }
-            if old_val <= self.low {
-                // re-compute low
-                self.low = *self
-                    .q_vals
-                    .iter()
-                    .min_by(|x, y| x.partial_cmp(y).unwrap_or(Ordering::Equal))
-                    .unwrap();
+            if self.q_vals.is_empty() {
+                // window of a single value
+                self.high = val;
+                self.low = val;
+            } else {
+                // update high and low values if needed
+                if old_val >= self.high {
+                    // re-compute high
+                    self.high = *self
+                        .q_vals
+                        .iter()
+                        .max_by(|x, y| x.partial_cmp(y).unwrap_or(Ordering::Equal))
+                        .unwrap();
+                }
+                if old_val <= self.low {
+                    // re-compute low
+                    self.low = *self
+                        .q_vals
+                        .iter()
+                        .min_by(|x, y| x.partial_cmp(y).unwrap_or(Ordering::Equal))
+                        .unwrap();
+                }
             }
         }
         self.q_vals.push_back(val);
